@@ -111,7 +111,7 @@ EXPECTED_PROBES = [
     "probe.store_settle_run_converged", "probe.store_symmetric_value_tie",
     "probe.twin_snapshot_caught_up_with_newer_state", "probe.twin_stale_snapshot_merged_into_live",
     "probe.twin_snapshot_promoted", "probe.twin_restarted_replica_relearns_own_updates",
-    "probe.twin_update_skipped_while_recovering",
+    "probe.twin_update_skipped_while_recovering", "probe.reload_then_local_update",
     "fault.partition", "fault.loss", "fault.pause",
 ]
 SHRINK_SKIP = ("klass", "crdt", "variant", "n_nodes")
@@ -212,8 +212,9 @@ def gen_crdt(rng):
         if r < 0.52:
             ops.append({"t": t, "node": node, "kind": "selfmerge", "via": rng.choice(["live", "dict", "copy"])})
             continue
-        if r < 0.66:
-            k2 = rng.choice(["snap", "snap", "snapsync", "snapsync", "snapsync", "swap", "restart"])
+        if r < 0.70:
+            k2 = rng.choice(["snap", "snap", "snapsync", "snapsync", "snapsync", "swap", "restart", "reload", "reload",
+                             "reload"])
             ops.append({"t": t, "node": node, "kind": k2, "via": rng.choice(["dict", "copy", "live"]),
                         "dir": rng.choice(["catchup", "catchup", "into-live"])})
             continue
@@ -778,6 +779,7 @@ class ReplicaNode(Entity):
         self.snap = None        # [object with the same node id, update set it holds]
         self.restarted = False
         self.promoted = False
+        self.reloaded = False
 
     def set_clock(self, clock):
         super().set_clock(clock)
@@ -807,7 +809,7 @@ class ReplicaWorld:
         self.spec = Spec(self.kind)
         self.world = None
         self.probes = {"self_merge": 0, "chain": 0, "merges": 0, "dup": 0, "lww_tie": 0, "conc_add_rm": 0,
-                       "checks": 0, "snap": 0, "restart": 0, "snap_into_live": 0, "snap_catchup_newer": 0, "swap": 0,
+                       "checks": 0, "reload": 0, "update_after_reload": 0, "snap": 0, "restart": 0, "snap_into_live": 0, "snap_catchup_newer": 0, "swap": 0,
                        "update_skipped_while_recovering": 0, "resync_own": 0, "lww_rewrite": 0, "stale_state_after_remove": 0, "add_wins": 0, "tombstone_round_trip": 0}
         self.vias = set()
         self.msg_seq = 0
@@ -821,7 +823,8 @@ class ReplicaWorld:
         self.probes["checks"] += 1
         crdt = node.crdt if obj is None else obj
         seen = node.seen if obj is None else seen
-        twin = "/same-node-id-in-two-objects" if (obj is not None or node.restarted or node.promoted) else ""
+        twin = ("/same-node-id-in-two-objects" if (obj is not None or node.restarted or node.promoted)
+                else "/replica-reloaded-from-own-dict" if node.reloaded else "")
         label = node.name if obj is None else f"{node.name} (snapshot object)"
         got = _crdt_value(self.kind, crdt)
         want = self.spec.value(seen)
@@ -894,6 +897,14 @@ class ReplicaWorld:
                                 f"{_crdt_value(self.kind, c)!r}")
             self.check(node, "selfmerge:")
             return None
+        if k == "reload":
+            # persist and reload: the replica is rebuilt from its own serialised state (same node id, full state incl.
+            # tombstones / tag sequence number) and then CONTINUES local updates on the rebuilt object
+            node.crdt = self.cls.from_dict(node.crdt.to_dict())
+            node.reloaded = True
+            self.probes["reload"] += 1
+            self.check(node, "reload:")
+            return None
         if k in ("snap", "snapsync", "swap", "restart"):
             return self._twin_op(node, k, op)
         if node.need:
@@ -902,6 +913,8 @@ class ReplicaWorld:
                 return None     # a restarted replica must first re-learn its own former updates (else slot/tag reuse)
             node.need = 0
         before = node.seen
+        if node.reloaded:
+            self.probes["update_after_reload"] += 1
         self.updated.add(node.idx)
         if k in ("inc", "dec"):
             n = op.get("n", 1)
@@ -1069,6 +1082,7 @@ def run_crdt(sc):
         "probe.dup_delivered": int(pr["dup"] > 0), "probe.lww_tie_physical_logical": int(pr["lww_tie"] > 0),
         "probe.orset_concurrent_add_remove": int(pr["conc_add_rm"] > 0),
         "probe.lww_rewrite_same_value_newer_timestamp": int(pr["lww_rewrite"] > 0),
+        "probe.reload_then_local_update": int(pr["update_after_reload"] > 0),
         "probe.twin_snapshot_caught_up_with_newer_state": int(pr["snap_catchup_newer"] > 0),
         "probe.twin_stale_snapshot_merged_into_live": int(pr["snap_into_live"] > 0),
         "probe.twin_snapshot_promoted": int(pr["swap"] > 0),
